@@ -47,7 +47,7 @@ KINDS = ['add', 'scalar', 'conj', 'transpose', 'tensordot', 'tensordot_diag', 'v
 def cases(tier, seed):
     out = []
     strength = 2 if tier == 'quick' else 3
-    reps = {'quick': 3, 'thorough': 8}[tier]
+    reps = {'quick': 3, 'thorough': 24}[tier]
     for kind in KINDS:
         factors = {'sym': list(cat.SYMS), 'dtype': ['real', 'complex'], 'lazy_a': LAZY, 'drop': ['none', 'some']}
         if kind in ('add', 'tensordot', 'vdot', 'ncon', 'tensordot_diag', 'broadcast', 'mask'):
